@@ -499,6 +499,84 @@ func TestVerifSendBatch(t *testing.T) {
 			rep.Samples = append(rep.Samples, map[string]any{"scenario": desc, "expected": s.Kinds, "got": r.kinds, "allOK": r.allOK})
 		}
 	}
+	// ---- two regions of ONE server in one multi, one of them answered with a region-level exception: only that region's
+	// calls fail (or are retried); the other region's calls keep their own answers and are not executed again
+	for _, class := range []string{verifsim.ExcNotServing, verifsim.ExcDoNotRetry, verifsim.ExcRegionMoved} {
+		for rep2 := 0; rep2 < 4; rep2++ {
+			name := fmt.Sprintf("same-server/region-exception=%s/%d", class[strings.LastIndex(class, ".")+1:], rep2)
+			var kinds []string
+			var allOK bool
+			execs := map[string]int{}
+			verifsim.Bubble(t, func(t *testing.T) {
+				tr := &verifsim.Trace{}
+				cl := verifsim.NewCluster(tr)
+				cl.AddServer("ms:1")
+				cl.AddServer("s1")
+				regs := cl.CreateTable("t", [][]byte{[]byte("m")}, []string{"s1", "s1"})
+				for _, k := range []string{"a1", "n2"} {
+					cl.PutRow("t", []byte(k), []verifsim.KV{{Row: []byte(k), Family: []byte("f"), Qualifier: []byte("q"), Timestamp: 1, Type: 4, Value: []byte("stored")}})
+				}
+				c := newSimClient(cl, RpcQueueSize(10), FlushInterval(time.Millisecond))
+				for _, k := range []string{"a0", "n0"} {
+					g, _ := hrpc.NewGet(context.Background(), []byte("t"), []byte(k))
+					c.Get(g)
+				}
+				synctest.Wait()
+				cl.Flap(regs[rep2%2], class, 1)
+				vals := map[string]map[string][]byte{"f": {"q": []byte("v")}}
+				g1, _ := hrpc.NewGet(context.Background(), []byte("t"), []byte("a1"))
+				p1, _ := hrpc.NewPut(context.Background(), []byte("t"), []byte("n1"), vals)
+				p2, _ := hrpc.NewPut(context.Background(), []byte("t"), []byte("a2"), vals)
+				g2, _ := hrpc.NewGet(context.Background(), []byte("t"), []byte("n2"))
+				batch := []hrpc.Call{g1, p1, p2, g2}
+				res, ok := c.SendBatch(context.Background(), batch)
+				synctest.Wait()
+				allOK = ok
+				for i, r := range res {
+					k := sbKind(r)
+					if g, isGet := batch[i].(*hrpc.Get); isGet && k == "ok" {
+						gr, _ := r.Msg.(*pb.GetResponse)
+						if rr := hrpc.ToLocalResult(gr.GetResult()); rr == nil || len(rr.Cells) != 1 || !bytes.Equal(rr.Cells[0].Row, g.Key()) {
+							k = "ok-with-foreign-content"
+						}
+					}
+					kinds = append(kinds, k)
+				}
+				cl.Lock()
+				for _, e := range cl.Execs {
+					if e.Row == "n1" || e.Row == "a2" {
+						execs[e.Row]++
+					}
+				}
+				cl.Unlock()
+				c.Close()
+				time.Sleep(time.Minute)
+				synctest.Wait()
+			})
+			flapped := "an"[rep2%2]
+			var want []string
+			for _, row := range []string{"a1", "n1", "a2", "n2"} {
+				if class == verifsim.ExcDoNotRetry && row[0] == flapped {
+					want = append(want, "fatal")
+				} else {
+					want = append(want, "ok")
+				}
+			}
+			ran++
+			if fmt.Sprint(kinds) != fmt.Sprint(want) {
+				rep.bad("batch-results-differ", "%s: SendBatch returned %v for [get a1, put n1, put a2, get n2] with region %c answered %s once; every call's own outcome is %v",
+					name, kinds, flapped, class, want)
+			}
+			if allOK != (class != verifsim.ExcDoNotRetry) {
+				rep.bad("batch-allok-differs", "%s: allOK=%v with results %v", name, allOK, kinds)
+			}
+			for row, n := range execs {
+				if n > 1 {
+					rep.bad("batch-call-executed-twice", "%s: row %s was executed %d times", name, row, n)
+				}
+			}
+		}
+	}
 	rep.Scenarios = ran
 	rep.Distinct = ran
 	rep.Extra["scripts_available"] = len(scripts)
